@@ -102,6 +102,10 @@ package tokenizers
 //@   loop 0
 //@     invariant tokInv(c) && c.Scanner != nil && c.Scanner == old(c.Scanner) && sc(c.Scanner).content == old(sc(c.Scanner).content)
 //@     invariant old(cur(c.Scanner)) <= cur(c.Scanner)
+// "the token stream produced with any option set equals the ... stream filtered": a raw token is dropped only when the option
+// that drops its kind is on - an unknown character, a comment, a whitespace run that follows a returned whitespace token
+//@     repeat-only-if[C15] (token.typ == Unknown && c.skipUnknown) || (token.typ == Comment && c.skipComments) ||
+//@         (token.typ == Whitespace && c.LastTokenType == Whitespace && c.skipWhitespaces)
 //@     decreases len(sc(c.Scanner).content) - cur(c.Scanner)
 
 // ---- configuration and whole-input tokenization as the parsers use them ---------------------------------------
